@@ -122,6 +122,8 @@ def run_case(ctx, g, rng):
     if g * SMALL_CHUNK < _n_small(ctx.tier):
         small_world_case(ctx, g)
     uris = [rng.choice(HOSTS) + rng.choice(TAILS) for _ in range(rng.randint(0, 10))]
+    if rng.random() < 0.2:
+        uris += [f"http://zz.cur/{rng.randint(0, 6)}/" + rng.choice(["1", "2", "b1"]) for _ in range(2)]
     if rng.random() < 0.04 or g == 0:  # case 0 always carries the listed known finding's trigger
         uris.append("https://github.com/o/r/issues/" + rng.choice(["1", "22"]))
     if uris and rng.random() < 0.4:
@@ -165,6 +167,11 @@ def run_case(ctx, g, rng):
         res = o[1]
         for u in set(uris):
             call(res.compress, u)
+        if rng.random() < 0.3:
+            # hand-curating the result, as the documentation suggests; every later discover call (this shard runs
+            # thousands in one process) is still a function of its own arguments only
+            call(res.add_prefix, f"zzcur{g % 7}", f"http://zz.cur/{g % 7}/")
+            S.counters["wl:results-curated-by-the-caller"] += 1
     if any(is_github_issue(u) for u in uris):
         ft.add("github")
     probe.note_key(f"{'default' if delims is None else len(delims)}{'m' if delims and any(len(d) > 1 for d in delims) else ''}:c{cutoff}:k{int(conv is not None)}:{'+'.join(sorted(ft))}",
